@@ -75,6 +75,12 @@ const TEMPLATES: &[Template] = &[
     Template { name: "assign lit", src: "pub fn main(x: T) -> T {\n  let mut v = x;\n  v = {1:T};\n  v\n}\n", params: &["T"], ret: "T", signed_only: false, unsigned_only: false, other: None },
     Template { name: "op-assign lit", src: "pub fn main(x: T) -> T {\n  let mut v = x;\n  v += {1:T};\n  v\n}\n", params: &["T"], ret: "T", signed_only: false, unsigned_only: false, other: None },
     Template { name: "arr[0]=lit", src: "pub fn main(a: [T; 2], y: u8) -> [T; 2] {\n  let mut b = a;\n  b[0] = {1:T};\n  b\n}\n", params: &["[T;2]", "u8"], ret: "[T;2]", signed_only: false, unsigned_only: false, other: None },
+    Template { name: "let a=[lit;N];a", src: "const N: usize = 2usize;\npub fn main(x: T) -> [T; N] {\n  let a = [{1:T}; N];\n  a\n}\n", params: &["T"], ret: "[T;2]", signed_only: false, unsigned_only: false, other: None },
+    Template { name: "let a=[lit;N];a[1]=x", src: "const N: usize = 3usize;\npub fn main(x: T) -> [T; N] {\n  let a = [{7:T}; N];\n  let mut b: [T; N] = a;\n  b[1] = x;\n  b\n}\n", params: &["T"], ret: "[T;3]", signed_only: false, unsigned_only: false, other: None },
+    Template { name: "let a=[lit;N];f(a)", src: "const N: usize = 2usize;\nfn f(v: [T; N]) -> T {\n  v[1]\n}\npub fn main(x: T) -> T {\n  let a = [{5:T}; N];\n  f(a) + x\n}\n", params: &["T"], ret: "T", signed_only: false, unsigned_only: false, other: None },
+    Template { name: "let t=(lit,lit,x);t", src: "pub fn main(x: T) -> (T, T, T) {\n  let t = ({1:T}, {2:T}, x);\n  t\n}\n", params: &["T"], ret: "(T,T,T)", signed_only: false, unsigned_only: false, other: None },
+    Template { name: "let t=((lit,x),[lit;2]);t", src: "pub fn main(x: T) -> ((T, T), [T; 2]) {\n  let t = (({1:T}, x), [{2:T}; 2]);\n  t\n}\n", params: &["T"], ret: "(T,T,T,T)", signed_only: false, unsigned_only: false, other: None },
+    Template { name: "let a=[(lit,x);2];a", src: "pub fn main(x: T) -> [(T, T); 2] {\n  let a = [({1:T}, x); 2];\n  a\n}\n", params: &["T"], ret: "(T,T,T,T)", signed_only: false, unsigned_only: false, other: None },
     Template { name: "two pub fns", src: "pub fn main(x: T) -> T {\n  x + {1:T}\n}\npub fn other(y: T, z: bool) -> (bool, T) {\n  (z, y & {1:T})\n}\n", params: &["T"], ret: "T", signed_only: false, unsigned_only: false, other: Some(("other", &["T", "bool"], "(bool,T)")) },
 ];
 
@@ -113,6 +119,8 @@ fn bits_of(spec: &str, t: IntTy) -> usize {
         "(T,bool)" => tb + 1,
         "(bool,T)" => tb + 1,
         "(T,T)" => 2 * tb,
+        "(T,T,T)" => 3 * tb,
+        "(T,T,T,T)" => 4 * tb,
         "E1(T)" => tb + 1,
         other => panic!("unknown type spec {other}"),
     }
